@@ -66,6 +66,16 @@ GROUPS = {
                                             "Duror.cnt*", "Duror.delTop*", "Duror.getTop*", "SuberBase.*", "Suber.*", "IoSuber.*", "IoSetSuber.*"],
                  "src/hio/base/hier/durqing.py": ["Durq.*"],
                  "src/hio/base/hier/dusqing.py": ["Dusq.*"]}),
+    # functions the anchored code depends on (helpers, base classes), against the checks whose properties go through them
+    "deps": dict(
+        checks=["C03", "C05", "C09", "C12", "C19", "C20", "C22", "C23", "C13"],
+        targets={"src/hio/base/tyming.py": ["Tymist.*", "Tymee.*", "Tymer.*"],
+                 "src/hio/core/wiring.py": ["WireLog.readRx", "WireLog.readTx", "WireLog.writeRx", "WireLog.writeTx"],
+                 "src/hio/core/coring.py": ["normalizeHost"],
+                 "src/hio/help/helping.py": ["intToB64", "intToB64b", "b64ToInt", "codeB64ToB2", "codeB2ToB64", "nabSextets", "repack", "just"],
+                 "src/hio/core/memo/memoing.py": ["Memoer._encode*", "Memoer._decode*", "Memoer.makeMID", "Memoer.wiff"],
+                 "src/hio/base/hier/holding.py": ["Hold.*"],
+                 "src/hio/base/during.py": ["DomSuberBase.*", "DomSuber.*", "DomIoSuber.*", "DomIoSetSuber.*", "Subery.*"]}),
     "box": dict(
         checks=["C25"],
         targets={"src/hio/base/hier/boxing.py": ["Boxer.run", "Boxer.exen", "Boxer.end", "Boxer.endial", "Boxer.rendo", "Boxer.endo",
